@@ -43,10 +43,11 @@ class StlPastifier(LtlPastifier, StlAstVisitor):
     def __init__(self):
         LtlPastifier.__init__(self)
         self.node_horizons = dict()
+        self.discrete_time = False
 
     def pastify(self, ast):
         self.ast = ast
-        h = StlHorizon(ast)
+        h = StlHorizon(ast, self.discrete_time)
         self.sample_duration = h.sample_duration()
         horizons = dict()
         for spec in ast.specs:
